@@ -112,6 +112,8 @@ type gtTr struct {
 	cnt        []brkTarget // where `continue` goes
 	cfg        *gtCfg
 	loopIndex  map[ast.Node]int // for / range statements of the function, numbered in source order from 1
+	named      []string         // named results used as variables
+	loopCache  map[ast.Node]*loopCache
 	inMutCall  bool
 	elemMut    bool // the function assigns elements of maps / slices: no local aliases of maps / slices
 }
@@ -742,7 +744,7 @@ func (tr *gtTr) applyFn(callee *gtFn, args []ex, binds []gbind) ex {
 	if len(callee.muts) > 0 && !tr.inMutCall {
 		gtFail("call of %s, which changes its receiver or an argument, inside an expression (only as a statement or as the whole right-hand side of an assignment)", callee.key)
 	}
-	if len(callee.results) != 1 && len(callee.muts) == 0 {
+	if len(callee.results) != 1 && len(callee.muts) == 0 && !tr.inMutCall {
 		gtFail("call of %s, which does not return exactly one value", callee.key)
 	}
 	parts := []string{callee.coqName}
@@ -755,7 +757,7 @@ func (tr *gtTr) applyFn(callee *gtFn, args []ex, binds []gbind) ex {
 	}
 	code := "(" + strings.Join(parts, " ") + ")"
 	var rt *gtype
-	if len(callee.muts) > 0 {
+	if len(callee.muts) > 0 || len(callee.results) != 1 {
 		rt = &gtype{kind: kOther, name: "(state, results) of " + callee.key, valueKind: -1}
 		for _, r := range callee.results {
 			if r.usesValue() {
@@ -959,6 +961,27 @@ func (tr *gtTr) library(pkg, name string, c *ast.CallExpr, env *venv) ex {
 			return ex{binds: binds, code: "(is_prefix " + args[1].code + " " + args[0].code + ")", typ: tBool}
 		}
 		return ex{binds: binds, code: "(go_has_suffix " + args[1].code + " " + args[0].code + ")", typ: tBool}
+	case (pkg == "strings" || pkg == "bytes") && (name == "TrimPrefix" || name == "TrimSuffix"):
+		need(2)
+		args, binds := tr.args(c.Args, env)
+		if args[0].typ.kind != kString || args[1].typ.kind != kString {
+			gtFail("%s: arguments are not strings", full)
+		}
+		fn := "go_trim_prefix"
+		if name == "TrimSuffix" {
+			fn = "go_trim_suffix"
+		}
+		return ex{binds: binds, code: "(" + fn + " " + args[1].code + " " + args[0].code + ")", typ: args[0].typ}
+	case (pkg == "strings" || pkg == "bytes") && (name == "ToLower" || name == "ToUpper"):
+		// Unicode case mapping is not modelled here: the function stays a parameter (f_strings_ToLower : bstr -> bstr)
+		need(1)
+		a := tr.expr(c.Args[0], env)
+		if a.typ.kind != kString {
+			gtFail("%s of a non-string", full)
+		}
+		pn := "f_strings_" + name
+		tr.fn.addAbstract(gtAbstract{name: pn, typ: "bstr -> bstr"})
+		return ex{binds: a.binds, code: "(" + pn + " " + a.code + ")", typ: a.typ}
 	case pkg == "strings" && (name == "Replace" || name == "ReplaceAll"):
 		if name == "Replace" {
 			need(4)
